@@ -164,7 +164,7 @@ func (d *Driver) runShard(shard, nw int, m *Merged, mu *sync.Mutex) {
 		out := filepath.Join(d.TmpDir, fmt.Sprintf("s%d-a%d.jsonl", shard, attempt))
 		errf := filepath.Join(d.TmpDir, fmt.Sprintf("s%d-a%d.stderr", shard, attempt))
 		bin := d.Bin
-		if p.Race {
+		if p.Race || (p.RaceShard != nil && p.RaceShard(shard, nw)) {
 			bin = d.RaceBin
 		}
 		cmd := exec.Command(bin, "worker", p.ID, d.Tier, strconv.FormatInt(d.Seed, 10),
@@ -175,7 +175,9 @@ func (d *Driver) runShard(shard, nw int, m *Merged, mu *sync.Mutex) {
 		cmd.Env = append(os.Environ(), "VERIF_DIR="+d.VerifDir, "VERIF_TMP="+d.TmpDir, "VERIF_BIN="+d.Bin,
 			"GOGC=400", "GOMAXPROCS=2")
 		if p.Env != nil {
-			cmd.Env = append(cmd.Env, p.Env(d.Tier)...)
+			for _, kv := range p.Env(d.Tier) {
+				cmd.Env = append(cmd.Env, strings.ReplaceAll(kv, "$VERIF_TMP", d.TmpDir))
+			}
 		}
 		runErr := cmd.Run()
 		ef.Close()
